@@ -195,6 +195,8 @@ def skeleton(s):
                 out.append(('msg', re.sub(r' after -?\d+\.\d{4}s', ' after LIFE', t.strip().split(' ', 1)[1])))
             elif it['kind'] == 'sep':
                 out.append(('sep',))
+            elif it['kind'] == 'stopped':
+                out.append((k, re.sub(r' after -?\d+\.\d{4}s', ' after LIFE', t)))
             else:
                 out.append((k, t))
     return out
@@ -211,16 +213,21 @@ def numbers(s):
                     out.append(it['life'])
             elif it['kind'] == 'sep':
                 out.append(it['gap'])
+            elif it['kind'] == 'stopped':
+                m = re.search(r' after (-?\d+\.\d{4})s', outline.strip_sgr(p))
+                if m:
+                    out.append(m.group(1))
     return out
 
 
-def run_case(ctx, st, filt, shift, other_dialect, list_cmds, case, hooks=None):
+def run_case(ctx, st, filt, shift, other_dialect, list_cmds, case, hooks=None, brk=None):
     lines = [e['line'] for e in st['entries']]
     times = [e['rec']['t_us'] for e in st['entries']]
     t0 = times[0]
-    s = Session(filter_text=filt)
+    s = Session(filter_text=filt, stop_text=brk)
     s.feed([l + '\n' for l in lines], hooks=hooks)
     seq = shown_sequence(s, st)
+    ctx.count('stopped_notices', sum(1 for k, p in s.events if k == 'ui' and p == 'pause'))
     n_thresh = check_live(ctx, st, times, seq, t0, case)
     ctx.count('shown_messages', sum(1 for e in seq if e[0] == 'msg'))
     ctx.count('separators_seen', sum(1 for e in seq if e[0] == 'sep'))
@@ -228,7 +235,7 @@ def run_case(ctx, st, filt, shift, other_dialect, list_cmds, case, hooks=None):
     for cmd in list_cmds:
         check_listing(ctx, st, s, cmd, times, t0, dict(case, command=cmd))
     # metamorphic: shift
-    s2 = Session(filter_text=filt)
+    s2 = Session(filter_text=filt, stop_text=brk)
     lines2 = streams.shifted_lines(st, shift, other_dialect)
     s2.feed([l + '\n' for l in lines2], hooks=hooks)
     a, b = skeleton(s), skeleton(s2)
@@ -271,8 +278,10 @@ def run(ctx, spec):
         hooks = {}
         for _ in range(rng.choice([0, 0, 1, 2, 4])):
             hooks.setdefault(rng.randint(1, len(st['entries'])), []).append(rng.choice(list_cmds))
-        case = {'lines': [x['line'] for x in st['entries']], 'filter': filt, 'k': k, 'hooks': {str(a): b for a, b in hooks.items()}}
-        n = run_case(ctx, st, filt, shift, od, list_cmds, case, hooks)
+        # a breakpoint too: in file / pipe / run mode a hit prints a notice and the stream goes on
+        brk = pick_filter(rng, st) if rng.random() < 0.45 else None
+        case = {'lines': [x['line'] for x in st['entries']], 'filter': filt, 'breakpoint': brk, 'k': k, 'hooks': {str(a): b for a, b in hooks.items()}}
+        n = run_case(ctx, st, filt, shift, od, list_cmds, case, hooks, brk)
         ctx.count('mid_stream_listings', sum(len(v) for v in hooks.values()))
         ctx.ev(len(st['entries']))
         if n:
@@ -300,13 +309,13 @@ def times_of(lines):
 def replay(ctx, case):
     env.setup()
     hooks = {int(a): b for a, b in (case.get('hooks') or {}).items()}
-    s0 = Session(filter_text=case.get('filter'))
+    s0 = Session(filter_text=case.get('filter'), stop_text=case.get('breakpoint'))
     s0.feed([l + '\n' for l in case['lines']], hooks=hooks)
     times = times_of(case['lines'])
     st = {'entries': [{'line': l} for l in case['lines']]}
     ctx.ev()
     check_live(ctx, st, times, shown_sequence(s0, st), times[0], case, tag='[replay] ')
-    s = Session(filter_text=case.get('filter'))
+    s = Session(filter_text=case.get('filter'), stop_text=case.get('breakpoint'))
     s.feed([l + '\n' for l in case['lines']], hooks={int(a): b for a, b in (case.get('hooks') or {}).items()})
     if case.get('command'):
         s.command(case['command'])
